@@ -118,7 +118,7 @@ def extract(repo):
         raise Untranslatable("ppc bus column 7 is not VM")
 
     fn = find_def(rb, "_get_shunt_results")
-    leaves = {"ppc['bus'][sidx,VM]": "v", "s['step']": "step", "ppc['bus'][sidx,BASE_KV]": "vb", "net['shunt']['vn_kv'].values": "vn",
+    leaves = {"ppc['bus'][sidx,VM]": "v", "s['step']": "step", "ppc['bus'][sidx,BASE_KV]": "vb", "net['shunt']['vn_kv'].values": "vn", "shunt_vn_kv": "vn",
               "net['shunt']['p_mw'].values": "p", "net['shunt']['q_mvar'].values": "q", "_is_elements['shunt']": "isv"}
     stop = {"w"}
 
@@ -147,12 +147,12 @@ def extract(repo):
 
     bb, _ = parse_file(f"{repo}/pandapower/build_bus.py")
     fn = find_def(bb, "_calc_shunts_and_add_on_ppc")
-    leaves = {"ppc['bus'][bus_lookup[s['bus'].values],BASE_KV]": "vb", "s['vn_kv'].values": "vn", "s['p_mw'].values": "p",
+    leaves = {"ppc['bus'][bus_lookup[s['bus'].values],BASE_KV]": "vb", "s['vn_kv'].values": "vn", "shunt_vn_kv": "vn", "s['p_mw'].values": "p",
               "s['q_mvar'].values": "q", "s['step'].values": "step", "vl": "isv", "base_multiplier": "(1 : K)"}
     sy = Sym(leaves)
     exprs = {"p": set(), "q": set()}
     for n in ast.walk(fn):
-        if isinstance(n, ast.Assign) and _n(n.targets[0]) == "v_ratio" and "s['vn_kv']" in _n(n.value):
+        if isinstance(n, ast.Assign) and _n(n.targets[0]) == "v_ratio" and ("s['vn_kv']" in _n(n.value) or "shunt_vn_kv" in _n(n.value)):
             sy.env["v_ratio"] = sy.expr(n.value)
     if "v_ratio" not in sy.env:
         raise Untranslatable("shunt v_ratio not found")
